@@ -203,7 +203,9 @@ def run(ctx):
             ins = inserts[0]
             a = [Sym(ins.fn).operand(x) for x in ins.args]
             k_, v_ = strip_sym(sym_through(a[1], *STR)), strip_sym(sym_through(a[2], *STR))
-            kv_ok = sym_is_call(k_, "Label::key") and sym_is_call(v_, "Label::value") and repr(strip_sym(k_[2][0])) == repr(strip_sym(v_[2][0]))
+            # the pair comes from one label (how the value is escaped on the way is C08's business, not the merge's)
+            vals = [x for x in sym_walk(a[2]) if isinstance(x, tuple) and sym_is_call(x, "Label::value")]
+            kv_ok = sym_is_call(k_, "Label::key") and len(vals) == 1 and repr(strip_sym(k_[2][0])) == repr(strip_sym(vals[0][2][0]))
             src, whyit = iteration_context(ins)
             each_ok = src is not None and sym_is_call(strip_sym(src), "Key::labels") and is_param(sym_through(strip_sym(src)[2][0]), 0)
             # the map the labels are inserted into starts from the defaults (clone of parameter 1), whatever the idiom
